@@ -33,7 +33,12 @@ RULE = (
     's1/s3 log-uniform in 1..1e6 and s2 log-uniform between (also s2=s1 and s2=s3), exactly singular UB for the '
     'degenerate branch; Q vectors random with norm 0.01..100 1/angstrom; split/reassemble: arrays of rank 0..3 with '
     'sizes 0..3, Qy/Qz with permuted dimension order, and mismatching sizes (missing/extra/renamed dimension, '
-    'different length) for the DimensionError guard. Distinct = (operation, operand bit patterns / shapes). '
+    'different length) for the DimensionError guard. call sequences: 2-4 consecutive calls of hkl_vec_from_Q_vec (same UB object with different R, same UB value in a new '
+    'object, same R with different UB, same Q with both different, identical repeat, array chunk then scalars) and of '
+    'Q_elements_from_wavelength / ub_matrix_from_u_and_b with shared operand objects: every call is judged against the exact '
+    'reference for its own arguments and must be bit-identical when the sequence is executed in reverse order (key '
+    'C08:history-dependent); the correspondence compares every call of a sequence with the pure model. '
+    'Distinct = (operation, operand bit patterns / shapes). '
     f'Tolerances: Q components {Q_ULPS}u*2pi/lambda absolute with u the unit roundoff of the result (2^-53, or 2^-24 for a float32 '
     'wavelength, whose result is float32; 16*2^-24 < the 1e-5 single-precision budget; cancellation in e_i-e_f is conditioning); '
     f'hkl: residual |2pi R UB hkl - Q|/|Q| <= {HKL_C}*(s1^2/(s2 s3))*2^-53 and forward error |hkl - hkl_exact| <= '
@@ -461,6 +466,37 @@ def correspond(ctx):
         else:
             ctx.disagree({'op': 'hkl', 'q': [bits(x) for x in q], 'ub': [bits(x) for x in ub.ravel()], 'r': [bits(x) for x in rm.ravel()]},
                          [bits(x) for x in h], o, 'hkl differs by more than 64*(s1^2/(s2 s3))*u*|hkl|')
+    # --- call sequences of hkl_vec_from_Q_vec against the (pure) model: shared UB / R / Q objects
+    seqs, lines = [], []
+    for _ in range(ctx.n(300, 6000)):
+        pattern, calls = gen_hkl_sequence(rng)
+        seqs.append((pattern, calls))
+        for c in calls:
+            rm = rot_matrix(np.array(c['rq']))
+            for row in np.array(c['q']).reshape(-1, 3):
+                lines.append('c08.hkl ' + ' '.join(bits(x) for x in (*row, *np.array(c['ub']).ravel(), *rm.ravel())))
+    outs = ctx.driver(lines)
+    pos = 0
+    for pattern, calls in seqs:
+        res = run_hkl_sequence(calls)
+        ctx.count('hkl-seq:' + pattern)
+        for i, c in enumerate(calls):
+            rows = np.array(c['q']).reshape(-1, 3)
+            mo = outs[pos:pos + len(rows)]
+            pos += len(rows)
+            ctx.case(('hkl-seq', pattern, i, tuple(bits(x) for x in np.array(c['ub']).ravel()), tuple(bits(x) for x in c['rq']),
+                      tuple(bits(x) for x in rows.ravel())), True)
+            if isinstance(res[i], str):
+                ctx.disagree(dict(seq_witness(pattern, calls), call=i), res[i], 'ok', 'kernel raised inside a call sequence')
+                continue
+            _, dk = det_cond(rot_matrix(np.array(c['rq'])) @ np.array(c['ub']))
+            for h, o in zip(res[i], mo):
+                model = np.array([unbits(t) if t != 'nan' else math.nan for t in o.split()])
+                tol = 64 * dk * U64 * float(np.linalg.norm(model))
+                if not (np.all(np.isfinite(h)) and np.all(np.abs(h - model) <= tol)):
+                    ctx.disagree(dict(seq_witness(pattern, calls), call=i), [bits(x) for x in h], o,
+                                 f'call {i} of a sequence ({pattern}) differs from the model evaluated on the same arguments')
+                    break
     # --- Q_vec_from_Q_elements / hkl_elements_from_hkl_vec
     specs, lines = [], []
     for _ in range(ctx.n(1500, 20000)):
@@ -850,6 +886,206 @@ def _oracle_corpus(ctx):
                     _hkl_point(ctx, w)
 
 
+# ---- call sequences (history independence) ----------------------------------------------------
+
+SEQ_PATTERNS = ['same-UB-diff-R', 'same-UB-diff-R', 'same-R-diff-UB', 'same-Q-diff-both', 'repeat', 'array-then-scalar',
+                'same-UB-value-new-object']
+
+
+def gen_hkl_sequence(rng):
+    """2-4 calls of hkl_vec_from_Q_vec that share one operand and vary another (a goniometer scan keeps UB and
+    changes R; a crystal change keeps R; ...).  A call = dict(ub=3x3 floats, ubid=object identity tag, rq, r_rot, q)."""
+    pattern = rng.choice(SEQ_PATTERNS)
+    n = 2 if pattern == 'repeat' else rng.randint(2, 4)
+
+    def new_ub():
+        b, _ = b_matrix(rng)
+        return rot_matrix(rand_quat(rng)) @ b
+
+    def new_q(array=False):
+        if array:
+            return np.array([rand_dir(rng) * lu(rng, 0.01, 100) for _ in range(rng.randint(2, 4))])
+        return rand_dir(rng) * lu(rng, 0.01, 100)
+
+    ub0, rq0, q0 = new_ub(), rand_quat(rng), new_q()
+    r_rot = rng.random() < 0.5
+    calls = []
+    for i in range(n):
+        if pattern in ('same-UB-diff-R', 'same-UB-value-new-object'):
+            c = dict(ub=ub0, ubid=0 if pattern == 'same-UB-diff-R' else i, rq=rand_quat(rng), q=q0 if rng.random() < 0.5 else new_q())
+        elif pattern == 'same-R-diff-UB':
+            c = dict(ub=new_ub(), ubid=i, rq=rq0, q=q0 if rng.random() < 0.5 else new_q())
+        elif pattern == 'same-Q-diff-both':
+            c = dict(ub=new_ub(), ubid=i, rq=rand_quat(rng), q=q0)
+        elif pattern == 'repeat':
+            c = dict(ub=ub0, ubid=0, rq=rq0, q=q0)
+        else:  # array-then-scalar: a chunk of Q vectors, then single vectors at other goniometer settings, same UB
+            c = dict(ub=ub0, ubid=0, rq=rand_quat(rng), q=new_q(array=(i == 0)))
+        c['r_rot'] = r_rot
+        calls.append(c)
+    return pattern, calls
+
+
+def run_hkl_sequence(calls, order=None):
+    """execute the calls in the given order on the real code; operands with the same `ubid` are the same
+    Variable object.  Returns {call index: result array (k,3) | error string}"""
+    import scipp as sc
+    from scippneutron.conversion import tof as K
+
+    ub_objs = {}
+    out = {}
+    for i in (order if order is not None else range(len(calls))):
+        c = calls[i]
+        if c['ubid'] not in ub_objs:
+            ub_objs[c['ubid']] = sc.spatial.linear_transform(value=np.array(c['ub']), unit='1/angstrom')
+        q = np.array(c['q'])
+        qv = sc.vector(q, unit='1/angstrom') if q.ndim == 1 else sc.vectors(dims=['x'], values=q, unit='1/angstrom')
+        try:
+            r = K.hkl_vec_from_Q_vec(Q_vec=qv, ub_matrix=ub_objs[c['ubid']], sample_rotation=_rot_or_matrix(np.array(c['rq']), c['r_rot']))
+            out[i] = np.array(r.values, dtype=np.float64).reshape(-1, 3)
+        except Exception as e:  # noqa: BLE001
+            out[i] = _err(e)
+    return out
+
+
+def seq_witness(pattern, calls):
+    return {'op': 'hkl-seq', 'pattern': pattern,
+            'calls': [{'ub': [bits(x) for x in np.array(c['ub']).ravel()], 'ubid': c['ubid'], 'rq': [bits(x) for x in c['rq']],
+                       'r_rot': c['r_rot'], 'q': [[bits(x) for x in row] for row in np.array(c['q']).reshape(-1, 3)],
+                       'q_scalar': np.array(c['q']).ndim == 1} for c in calls]}
+
+
+def calls_from_witness(w):
+    calls = []
+    for c in w['calls']:
+        q = np.array([[unbits(x) for x in row] for row in c['q']])
+        calls.append(dict(ub=np.array([unbits(x) for x in c['ub']]).reshape(3, 3), ubid=c['ubid'],
+                          rq=np.array([unbits(x) for x in c['rq']]), r_rot=c['r_rot'], q=q[0] if c['q_scalar'] else q))
+    return calls
+
+
+def judge_hkl_sequence(calls):
+    """→ list of (what, call index): every call of the sequence must satisfy the hkl criterion for ITS OWN arguments,
+    and must give bit-identical results whether the sequence is run forwards or backwards (a pure function)."""
+    found = []
+    fwd = run_hkl_sequence(calls)
+    for i, c in enumerate(calls):
+        if isinstance(fwd[i], str):
+            found.append((f'call {i} of the sequence raised {fwd[i]}', i))
+            continue
+        rm = rot_matrix(np.array(c['rq']))
+        for row, h in zip(np.array(c['q']).reshape(-1, 3), fwd[i]):
+            j = _judge_hkl(row, np.array(c['ub']), rm, h)
+            if j:
+                found.append((f'call {i} of the sequence (after {i} earlier call(s)) is wrong for its own arguments: {j[1]}', i))
+                break
+    rev = run_hkl_sequence(calls, order=list(reversed(range(len(calls)))))
+    for i in range(len(calls)):
+        a, b = fwd[i], rev[i]
+        same = (a == b) if isinstance(a, str) or isinstance(b, str) else np.array_equal(a, b)
+        if not same:
+            found.append((f'call {i} returns a different result when the sequence is executed in reverse order', i))
+    return found
+
+
+def _oracle_sequences(ctx, n):
+    import scipp as sc
+    from scippneutron.conversion import tof as K
+
+    rng = ctx.rng
+    for _ in range(n):
+        pattern, calls = gen_hkl_sequence(rng)
+        w = seq_witness(pattern, calls)
+        ctx.case(('oracle-hkl-seq', pattern, tuple(tuple(c['ub']) for c in w['calls']), tuple(tuple(c['rq']) for c in w['calls'])), True)
+        ctx.count('oracle-seq:hkl:' + pattern)
+        found = judge_hkl_sequence(calls)
+        if found:
+            ctx.violation('C08:history-dependent', 'hkl_vec_from_Q_vec: ' + found[0][0], dict(w, failing_call=found[0][1]))
+    # Q_elements_from_wavelength and ub_matrix_from_u_and_b: shared operand objects, forwards vs backwards
+    for _ in range(max(1, n // 4)):
+        m = rng.randint(2, 4)
+        kd, bi, bf = beam_pair(rng)
+        bi_v, bf_v = sc.vector(bi, unit='m'), sc.vector(bf, unit='m')
+        share = rng.choice(['beams', 'wavelength', 'incident'])
+        lam0 = lu(rng, 0.01, 100)
+        qcalls = []
+        for i in range(m):
+            lam = lam0 if share == 'wavelength' else lu(rng, 0.01, 100)
+            if share == 'beams' or i == 0:
+                a, b, av, bv = bi, bf, bi_v, bf_v
+            elif share == 'incident':
+                _, _, b = beam_pair(rng)
+                a, av, bv = bi, bi_v, sc.vector(b, unit='m')
+            else:
+                _, a, b = beam_pair(rng)
+                av, bv = sc.vector(a, unit='m'), sc.vector(b, unit='m')
+            qcalls.append((lam, a, b, av, bv))
+        ctx.case(('oracle-q-seq', share, tuple(bits(c[0]) for c in qcalls), tuple(bits(x) for x in bi)), True)
+        ctx.count('oracle-seq:qel:' + share)
+
+        def run_q(order):
+            res = {}
+            for i in order:
+                lam, a, b, av, bv = qcalls[i]
+                try:
+                    r = K.Q_elements_from_wavelength(wavelength=sc.scalar(lam, unit='angstrom'), incident_beam=av, scattered_beam=bv)
+                    res[i] = [float(r[k].value) for k in ('Qx', 'Qy', 'Qz')]
+                except Exception as e:  # noqa: BLE001
+                    res[i] = _err(e)
+            return res
+
+        fwd, rev = run_q(range(m)), run_q(reversed(range(m)))
+        wit = {'op': 'qel-seq', 'share': share, 'calls': [{'lambda': bits(c[0]), 'bi': [bits(x) for x in c[1]], 'bf': [bits(x) for x in c[2]]} for c in qcalls]}
+        for i, (lam, a, b, _, _) in enumerate(qcalls):
+            if isinstance(fwd[i], str):
+                ctx.violation('C08:history-dependent', f'Q_elements_from_wavelength: call {i} of the sequence raised {fwd[i]}', dict(wit, failing_call=i))
+                break
+            bad = _check_q_point(lam, 'float64', 'angstrom', a, b, fwd[i])
+            if bad or fwd[i] != rev[i]:
+                what = bad[0][1] if bad else 'different result when the sequence is executed in reverse order'
+                ctx.violation('C08:history-dependent', f'Q_elements_from_wavelength: call {i} of the sequence: {what}', dict(wit, failing_call=i))
+                break
+        # U*B with a shared U and varying B, and a shared B with varying U
+        share_u = rng.random() < 0.5
+        uq0, b0 = rand_quat(rng), b_matrix(rng)[0]
+        u_obj, b_obj = rot_var(uq0), sc.spatial.linear_transform(value=b0, unit='1/angstrom')
+        ucalls = []
+        for i in range(m):
+            if share_u:
+                bb = b_matrix(rng)[0]
+                ucalls.append((uq0, bb, u_obj, sc.spatial.linear_transform(value=bb, unit='1/angstrom')))
+            else:
+                uq = rand_quat(rng)
+                ucalls.append((uq, b0, rot_var(uq), b_obj))
+        ctx.case(('oracle-ub-seq', share_u, tuple(bits(x) for x in uq0), tuple(bits(x) for x in b0.ravel())), True)
+        ctx.count('oracle-seq:ub:' + ('shared-U' if share_u else 'shared-B'))
+
+        def run_u(order):
+            res = {}
+            for i in order:
+                try:
+                    res[i] = np.array(K.ub_matrix_from_u_and_b(u_matrix=ucalls[i][2], b_matrix=ucalls[i][3]).value)
+                except Exception as e:  # noqa: BLE001
+                    res[i] = _err(e)
+            return res
+
+        fwd, rev = run_u(range(m)), run_u(reversed(range(m)))
+        for i, (uq, bb, _, _) in enumerate(ucalls):
+            wit = {'op': 'ub-seq', 'shared': 'U' if share_u else 'B', 'failing_call': i,
+                   'calls': [{'uq': [bits(x) for x in c[0]], 'b': [bits(x) for x in c[1].ravel()]} for c in ucalls]}
+            if isinstance(fwd[i], str):
+                ctx.violation('C08:history-dependent', f'ub_matrix_from_u_and_b: call {i} of the sequence raised {fwd[i]}', wit)
+                break
+            um = rot_matrix(uq)
+            exact = mm(fmat(um), fmat(bb))
+            bound = 8 * U64 * (np.abs(um) @ np.abs(bb))
+            bad = any(abs(Fraction(float(fwd[i][r, c])) - exact[r][c]) > Fraction(float(bound[r, c])) for r in range(3) for c in range(3))
+            if bad or not np.array_equal(fwd[i], rev[i]):
+                ctx.violation('C08:history-dependent', f'ub_matrix_from_u_and_b: call {i} of the sequence is not U*B of its own arguments '
+                              'or depends on the order of execution', wit)
+                break
+
+
 def oracle(ctx, deep):
     getcontext().prec = 60
     _oracle_corpus(ctx)
@@ -857,12 +1093,14 @@ def oracle(ctx, deep):
         _oracle_q(ctx, 150)
         _oracle_hkl(ctx, 1500)
         _oracle_hkl_arrays(ctx, 100)
+        _oracle_sequences(ctx, 400)
         _oracle_split(ctx, 800)
         _oracle_graph(ctx, 60)
     else:
         _oracle_q(ctx, ctx.n(250, 6000))
         _oracle_hkl(ctx, ctx.n(3000, 100000))
         _oracle_hkl_arrays(ctx, ctx.n(150, 3000))
+        _oracle_sequences(ctx, ctx.n(400, 8000))
         _oracle_split(ctx, ctx.n(1000, 15000))
         _oracle_graph(ctx, ctx.n(150, 3000))
 
@@ -889,6 +1127,11 @@ def replay(ctx, payload):
         for k, what, _ in found:
             print(k, '-', what)
         return bool(found) or any(not mt[1] for mt in res[1])
+    if op == 'hkl-seq':
+        found = judge_hkl_sequence(calls_from_witness(w))
+        for what, i in found:
+            print('C08:history-dependent -', what)
+        return bool(found)
     if op == 'hkl':
         uq = np.array([unbits(x) for x in w['uq']])
         rq = np.array([unbits(x) for x in w['rq']])
